@@ -194,6 +194,31 @@ def clause_remove_all_leaves(prog, rep):
                         if any(y.name == "contains" for y in c2):
                             per_member = True
             root = prog.fns.get(f.root, f)
+            # the walk over members() runs to exhaustion: the removal is reached from a push only through the iterator's None arm
+            # (an early `break` once "enough" leaves were found leaves the user's other clients in the group)
+            exhaust = True
+            none_edges = set()
+            for nx in f.live_calls():
+                if nx.name == "next" and nx.dst and nx.args and "p" in nx.args[0]:
+                    _, c3, _ = f.depends_on(nx.args[0]["p"][0])
+                    if not any(y.name == "members" and last_seg(y.self_adt) == "MlsGroup" for y in c3):
+                        continue
+                    for w in range(f.nblocks()):
+                        t = f.term(w)
+                        if t["k"] != "switch":
+                            continue
+                        dl = A._opl(t["discr"])
+                        if any(b2 == w and s2.get("k") == "discr" and s2["d"] == [dl] and s2["o"] and s2["o"][0].get("p", [None])[0] == nx.dst[0] for b2, s2 in f.stmts()):
+                            tg = dict((v, b) for v, b in t["targets"])
+                            none_edges.add((w, tg.get(0, t["otherwise"])))
+            if none_edges:
+                for x in calls:
+                    if x.name == "push" and "to" in x.t:
+                        if c.bb in A.reach_without_edges(f, x.t["to"], none_edges):
+                            exhaust = False
+                rep.check(exhaust, "remove-every-leaf", "%s/MlsGroup::remove_members/walk-exhausted" % root.label(),
+                          "the member walk ends only when MlsGroup::members() is exhausted",
+                          "the member walk can stop early (break) after a leaf was selected: further leaves of the same identity are not removed", c.loc())
             rep.check(from_members and not keyed and per_member, "remove-every-leaf", "%s/MlsGroup::remove_members" % root.label(),
                       "the leaves to remove are selected per member of MlsGroup::members() by a membership test on the requested identities",
                       "the leaf list for MlsGroup::remove_members %s: a user with several clients (leaves) under one identity keeps all but one of "
